@@ -20,7 +20,7 @@ Definition rel_of (before_pipe : bool) (r : relrec) : RelGrammar.rel :=
   RelGrammar.mk_rel (rr_name r)
     (match rr_qual r with Some q => Some (mk_qual [] [] q) | None => None end)
     (match rr_ver r with
-     | Some (vc, ver) => Some (mk_vclause [32%N] [] (vop_of vc) [32%N] None ver [])
+     | Some (vc, ver) => Some (mk_vclause [32%N] [] (vop_of vc) [32%N] None ver [] [])
      | None => None
      end)
     None [] (if before_pipe then [32%N] else []).
@@ -55,7 +55,7 @@ Proof.
   intros Hp. unfold plain in Hp. destruct r as [n q v [ar|] [|g pr]]; cbn [rr_archs rr_profs] in Hp; try discriminate.
   unfold rel_text, rel_of, render_rel. cbn [rr_name rr_qual rr_ver r_name r_qual r_ver r_archs r_profs r_trail].
   destruct q as [q|]; destruct v as [[vc ver]|];
-    cbn [opt_text qual_text q_ws0 q_ws1 q_name vclause_text vbody_text v_ws0 v_ws1 v_ws2 v_ws3 v_op v_epoch v_ver vtext flat_map app];
+    cbn [opt_text qual_text q_ws0 q_ws1 q_name vclause_text vbody_text v_ws0 v_ws1 v_ws2 v_ws3 v_op v_epoch v_ver v_more vtext flat_map app];
     rewrite ?vop_text_of; napp; reflexivity.
 Qed.
 
@@ -109,7 +109,7 @@ Proof.
   rewrite (ident_text_ok _ H2). cbn [andb].
   destruct (rr_qual r) as [q|]; destruct (rr_ver r) as [[vc ver]|];
     unfold opt_ok, qual_ok, vclause_ok, ws_ok;
-    cbn [q_ws0 q_ws1 q_name v_ws0 v_ws1 v_ws2 v_ws3 v_epoch v_ver forallb is_fws andb opt_ok];
+    cbn [q_ws0 q_ws1 q_name v_ws0 v_ws1 v_ws2 v_ws3 v_epoch v_ver v_more forallb is_fws andb opt_ok is_nil];
     rewrite ?(ident_text_ok _ H1), ?(ident_text_ok _ H0); destruct bp; reflexivity.
 Qed.
 Lemma wf_alts_of rs : forallb relrec_ok rs = true -> forallb wf_alt (alts_of rs) = true.
